@@ -172,22 +172,42 @@ def main(argv=None):
                 kf_msgs[e["key"]] = e["what"]
             else:
                 fresh.append(rec)
-        # one artefact per distinct (clause, case); confirm determinism of what is reported
-        seen, reported = set(), []
+        # one artefact per distinct (clause, case).  Every reported violation is confirmed by two plain re-executions of its
+        # case; a candidate that does not reproduce (e.g. it depended on what the enumeration did before it) is set aside
+        # and the next one is tried.  If nothing reproduces although something was observed, that is a harness error.
+        seen, distinct = set(), []
         for rec in fresh:
             h = _rec_hash(rec)
-            if h in seen:
-                continue
-            seen.add(h)
-            if len(reported) < MAX_REPLAYS:
-                reported.append(rec)
-        if reported and hasattr(mod, "replay") and not os.environ.get("VERIF_NO_CONFIRM"):
-            for rec in reported:
-                r1 = bool(mod.replay(rec))
-                r2 = bool(mod.replay(rec))
-                if not (r1 and r2):
-                    raise HarnessError("NONDETERMINISM: violation %s/%s did not reproduce on re-execution (%s,%s): %s"
-                                       % (prop, rec["clause"], r1, r2, json.dumps(rec["case"])[:600]))
+            if h not in seen:
+                seen.add(h)
+                distinct.append(rec)
+        reported, unreproduced = [], []
+        if hasattr(mod, "replay") and not os.environ.get("VERIF_NO_CONFIRM"):
+            # prefer one candidate per clause first, then the rest, so that a reproducible clause is found quickly
+            order, clause_seen = [], set()
+            for rec in distinct:
+                if rec["clause"] not in clause_seen:
+                    clause_seen.add(rec["clause"])
+                    order.append(rec)
+            order += [r for r in distinct if r not in order]
+            for rec in order[:MAX_REPLAYS * 6]:
+                if len(reported) >= MAX_REPLAYS:
+                    break
+                try:
+                    ok = bool(mod.replay(rec)) and bool(mod.replay(rec))
+                except Exception as e:
+                    ok = False
+                    rec = dict(rec, replay_error=repr(e)[:200])
+                (reported if ok else unreproduced).append(rec)
+            if distinct and not reported:
+                rec = unreproduced[0]
+                raise HarnessError("NONDETERMINISM: %d observed violation(s), none reproduced on re-execution; first: %s/%s %s"
+                                   % (len(distinct), prop, rec["clause"], json.dumps(rec["case"])[:600]))
+        else:
+            reported = distinct[:MAX_REPLAYS]
+        if unreproduced:
+            ctx.coverage["unreproduced_candidates"] = [{"clause": r["clause"], "case": r["case"]} for r in unreproduced[:5]]
+            print("(%d observed violation(s) did not reproduce from a plain re-execution of their case and were set aside)" % len(unreproduced))
         for k in sorted(kf_hits):
             print("KNOWN-FINDING: property=%s %s [%s, %d case(s) this run]" % (prop, kf_msgs[k], k, kf_hits[k]))
         ctx.coverage.setdefault("violation_clauses", sorted({r["clause"] for r in fresh}))
